@@ -1,10 +1,11 @@
 #!/bin/bash
 # Build the verification harness offline from files on disk only.
 set -e
-cd /verif/harness
-export CARGO_NET_OFFLINE=true CARGO_TARGET_DIR=/verif/harness/target RUSTFLAGS="--cfg georust_geo_verif"
+ROOT="$(cd "$(dirname "${BASH_SOURCE[0]}")" && pwd)"
+cd "$ROOT/harness"
+export CARGO_NET_OFFLINE=true CARGO_TARGET_DIR="$ROOT/harness/target" RUSTFLAGS="--cfg georust_geo_verif"
 cargo build --release --offline
 if [ -f shim/getrandom_shim.c ]; then
   gcc -O2 -shared -fPIC -o shim/libgetrandom_shim.so shim/getrandom_shim.c -ldl
 fi
-mkdir -p /verif/evidence /verif/replays
+mkdir -p "$ROOT/evidence" "$ROOT/replays"
